@@ -3,7 +3,9 @@ package main
 import (
 	"fmt"
 	"sort"
+	"strings"
 	"sync"
+	"time"
 
 	seccomp "github.com/elastic/go-seccomp-bpf"
 	"golang.org/x/net/bpf"
@@ -287,6 +289,7 @@ func c05() {
 			run.Sample(3, map[string]any{"kind": tp.kind, "arch": t.Name, "program": vlib.DumpRaw(c.Raw), "policy": spec.Brief()})
 		}
 	})
+	c05KernelTier(run, ts)
 	var rw []string
 	for v := range retWords {
 		rw = append(rw, fmt.Sprintf("%#x", v))
@@ -303,7 +306,249 @@ func c05() {
 	if run.Violations() == 0 {
 		run.Require("programs_checked", 200)
 		run.Require("programs_4090_to_4096", 1)
+		run.Require("kernel_loads_of_accepted_programs", 20)
+		run.Require("kernel_calibration_programs", 20)
+		run.Require("kernel_calibration_rejected_by_both", 5)
 	}
 	run.Finish(run.Counter("policies"), int64(len(distinct)),
 		"every accepted policy of the degenerate catalogue (empty groups in each position, single name, whole table, 30x8 lists), the C01/C03 catalogues, the name-only and mixed PRNG profiles and size-steered policies of 4088..4100 instructions: raw encoding, kernel-verifier port, reachable return constants within {default, group actions, ENOSYS on x86_64}; distinct = (kind, arch, program length)")
+}
+
+// neutralise makes a policy harmless for the process that loads it without
+// changing the shape of its program: default allow, group actions allow/log.
+func neutralise(s vlib.PolicySpec) vlib.PolicySpec {
+	n := vlib.SpecOf(s.Policy(), s.Arch)
+	n.Default = vlib.RetAllow
+	for i := range n.Groups {
+		n.Groups[i].Action = []uint32{vlib.RetAllow, vlib.RetLog}[i%2]
+	}
+	return n
+}
+
+// c05KernelTier: (1) every host-loadable program shape is attached by the
+// real kernel through the real LoadFilter; (2) the kernel-verifier port is
+// calibrated against seccomp(2) on mutated raw programs.
+func c05KernelTier(run *vlib.Run, ts []*vlib.Target) {
+	o, err := vlib.LoadOracles()
+	if err != nil {
+		run.Inconclusive(err.Error())
+		return
+	}
+	_ = o
+	hosts := []struct {
+		goarch string
+		t      *vlib.Target
+	}{{"amd64", targetByName(ts, "x86_64")}, {"386", targetByName(ts, "i386")}}
+	var cases []struct {
+		goarch string
+		t      *vlib.Target
+		spec   vlib.PolicySpec
+		kind   string
+	}
+	for _, h := range hosts {
+		for _, tp := range c05Catalogue([]*vlib.Target{h.t}) {
+			cases = append(cases, struct {
+				goarch string
+				t      *vlib.Target
+				spec   vlib.PolicySpec
+				kind   string
+			}{h.goarch, h.t, neutralise(vlib.SpecOf(tp.p, h.t.Name)), tp.kind})
+		}
+	}
+	nRandom := run.N(40, 2000)
+	for i := 0; i < nRandom; i++ {
+		r := caseRand(run, 5000000+i)
+		h := hosts[i%2]
+		var p *seccomp.Policy
+		kind := "mixed-long"
+		switch i % 4 {
+		case 0:
+			p = vlib.GenNamesOnly(r, h.t, r.Intn(3), vlib.NamedActions, vlib.NamedActions)
+			kind = "names-only"
+		case 1:
+			target := 4080 + r.Intn(17)
+			p = sizedPolicy(h.t, target, i)
+			for step := 0; step < 12; step++ {
+				c := vlib.Compile(vlib.SpecOf(p, h.t.Name).Policy(), h.t)
+				if !c.OK() || len(c.Raw) >= target {
+					break
+				}
+				add := target - len(c.Raw)
+				if add > 8 {
+					add -= add / 8
+				}
+				for a := 0; a < add && 250+len(p.Syscalls[0].Names) < len(h.t.Names); a++ {
+					p.Syscalls[0].Names = append(p.Syscalls[0].Names, h.t.Names[250+len(p.Syscalls[0].Names)])
+				}
+			}
+			kind = "near-4096"
+		default:
+			mp := vlib.DefaultMixed()
+			mp.LongListChance, mp.BigNamesChance = 2, 3
+			p = vlib.GenMixed(r, h.t, mp)
+		}
+		cases = append(cases, struct {
+			goarch string
+			t      *vlib.Target
+			spec   vlib.PolicySpec
+			kind   string
+		}{h.goarch, h.t, neutralise(vlib.SpecOf(p, h.t.Name)), kind})
+	}
+	var mu sync.Mutex
+	var calib [][]bpf.RawInstruction
+	maxLoaded := 0
+	vlib.Parallel(len(cases), func(i int) {
+		kc := cases[i]
+		comp := vlib.Compile(kc.spec.Policy(), kc.t)
+		if !comp.OK() || len(comp.Raw) > 4096 {
+			return
+		}
+		variant := ""
+		if kc.goarch == "386" {
+			variant = "386"
+		}
+		bin, err := vlib.BuildHarnessCmd("vchild", variant)
+		if err != nil {
+			run.Inconclusive("cannot build vchild: " + err.Error())
+			return
+		}
+		cc := &vlib.ChildCase{Policy: kc.spec, Flags: 0, NNP: true}
+		res, err := vlib.RunChild(bin, "enforce", cc, false, 30*time.Second)
+		if err != nil || res.TimedOut || res.Line("loaded") == nil {
+			run.Inconclusive(fmt.Sprintf("kernel tier: child did not report (%v)", err))
+			return
+		}
+		run.Count("kernel_loads_of_accepted_programs", 1)
+		ok, _ := res.Line("loaded")["ok"].(bool)
+		portSays := vlib.KernelCheck(comp.Raw)
+		switch {
+		case !ok && strings.Contains(fmt.Sprint(res.Line("loaded")["err"]), "invalid argument"):
+			run.Violation("kernel-rejects:"+kc.kind, fmt.Sprintf("%s/%s: the running kernel refuses (EINVAL) the %d-instruction program Assemble returned without error (verifier port says %q)", kc.goarch, kc.kind, len(comp.Raw), portSays),
+				map[string]any{"check": "C05", "policy": kc.spec, "kind": kc.kind, "goarch": kc.goarch, "load_error": res.Line("loaded")["err"]})
+		case !ok:
+			run.Inconclusive(fmt.Sprintf("kernel tier: load failed for another reason: %v", res.Line("loaded")["err"]))
+		case portSays != "":
+			run.Inconclusive(fmt.Sprintf("calibration: the verifier port rejects (%s) a program the kernel accepts; the port is too strict", portSays))
+		}
+		mu.Lock()
+		if ok && len(comp.Raw) > maxLoaded {
+			maxLoaded = len(comp.Raw)
+		}
+		if kc.goarch == "amd64" && len(calib) < run.N(12, 120) && len(comp.Raw) < 1500 {
+			calib = append(calib, comp.Raw)
+		}
+		mu.Unlock()
+	})
+	run.Set("longest_program_loaded_into_kernel", maxLoaded)
+
+	// calibration of the port on mutated programs (amd64, raw seccomp(2))
+	bin, err := vlib.BuildHarnessCmd("vchild", "")
+	if err != nil {
+		run.Inconclusive("cannot build vchild: " + err.Error())
+		return
+	}
+	type mutant struct {
+		name string
+		raw  []bpf.RawInstruction
+	}
+	var muts []mutant
+	for ci, base := range calib {
+		r := caseRand(run, 7000000+ci)
+		cp := func() []bpf.RawInstruction { return append([]bpf.RawInstruction{}, base...) }
+		jumps, loads := []int{}, []int{}
+		for pc, in := range base {
+			switch in.Op {
+			case 0x15, 0x25, 0x35, 0x45:
+				jumps = append(jumps, pc)
+			case 0x20:
+				loads = append(loads, pc)
+			}
+		}
+		muts = append(muts, mutant{"unchanged", cp()})
+		m := cp()
+		muts = append(muts, mutant{"drop-last", m[:len(m)-1]})
+		if len(jumps) > 0 {
+			m = cp()
+			m[jumps[r.Intn(len(jumps))]].Jt = 255
+			muts = append(muts, mutant{"jt=255", m})
+			m = cp()
+			j := jumps[len(jumps)-1]
+			m[j].Jf = uint8(len(m) - j - 1) // exactly one past the end
+			muts = append(muts, mutant{"jf-one-past-end", m})
+			m = cp()
+			m[j].Jf = uint8(len(m) - j - 2) // last instruction: fine
+			muts = append(muts, mutant{"jf-to-last", m})
+		}
+		if len(loads) > 0 {
+			for _, k := range []uint32{64, 60, 62, 3, 0xfffff000, 1 << 31} {
+				m = cp()
+				m[loads[r.Intn(len(loads))]].K = k
+				muts = append(muts, mutant{fmt.Sprintf("load-offset-%#x", k), m})
+			}
+			for _, op := range []uint16{0x28, 0x30, 0x00, 0x80, 0x94, 0xa4, 0x34, 0x60, 0x40, 0x07, 0x87, 0x0c, 0x1c, 0xff, 0x18, 0x21} {
+				m = cp()
+				l := loads[r.Intn(len(loads))]
+				m[l].Op = op
+				if op == 0x94 || op == 0x34 {
+					m[l].K = uint32(r.Intn(2)) // K=0: division by zero
+				}
+				if op == 0x60 {
+					m[l].K = uint32(r.Intn(20))
+				}
+				muts = append(muts, mutant{fmt.Sprintf("opcode-%#x-k%d", op, m[l].K), m})
+			}
+		}
+		m = cp()
+		m = append(m[:1], append([]bpf.RawInstruction{{Op: 0x05, K: uint32(len(m))}}, m[1:]...)...)
+		muts = append(muts, mutant{"ja-past-end", m})
+		m = cp()
+		m = append(m[:1], append([]bpf.RawInstruction{{Op: 0x05, K: uint32(len(m) - 2)}}, m[1:]...)...)
+		muts = append(muts, mutant{"ja-to-last", m})
+		if ci == 0 {
+			muts = append(muts, mutant{"empty", nil})
+			big := cp()
+			for len(big) < 4097 {
+				big = append([]bpf.RawInstruction{{Op: 0x20, K: 0}}, big...)
+			}
+			muts = append(muts, mutant{"len-4097", big})
+			muts = append(muts, mutant{"len-4096", big[1:]})
+			muts = append(muts, mutant{"ret-a-last", append(cp(), bpf.RawInstruction{Op: 0x16})})
+			muts = append(muts, mutant{"st-then-ldmem", append([]bpf.RawInstruction{{Op: 0x02, K: 3}, {Op: 0x60, K: 3}}, cp()...)})
+			muts = append(muts, mutant{"ldmem-uninit", append([]bpf.RawInstruction{{Op: 0x02, K: 3}, {Op: 0x60, K: 4}}, cp()...)})
+		}
+	}
+	vlib.Parallel(len(muts), func(i int) {
+		mt := muts[i]
+		// harmless for the child: every return becomes ALLOW
+		cc := &vlib.ChildCase{}
+		for _, in := range mt.raw {
+			k := in.K
+			if in.Op == 0x06 {
+				k = vlib.RetAllow
+			}
+			cc.Raw = append(cc.Raw, [4]uint32{uint32(in.Op), uint32(in.Jt), uint32(in.Jf), k})
+		}
+		neutral := make([]bpf.RawInstruction, len(cc.Raw))
+		for k, q := range cc.Raw {
+			neutral[k] = bpf.RawInstruction{Op: uint16(q[0]), Jt: uint8(q[1]), Jf: uint8(q[2]), K: q[3]}
+		}
+		port := vlib.KernelCheck(neutral)
+		res, err := vlib.RunChild(bin, "rawload", cc, false, 30*time.Second)
+		if err != nil || res.TimedOut || res.Line("rawloaded") == nil {
+			run.Inconclusive("calibration child did not report: " + mt.name)
+			return
+		}
+		errno := jsonU64(res.Line("rawloaded")["errno"])
+		run.Count("kernel_calibration_programs", 1)
+		kernelAccepts := errno == 0
+		if kernelAccepts != (port == "") {
+			run.Inconclusive(fmt.Sprintf("calibration failure: mutant %q (%d instructions): kernel errno=%d, verifier port says %q", mt.name, len(mt.raw), errno, port))
+			return
+		}
+		if kernelAccepts {
+			run.Count("kernel_calibration_accepted_by_both", 1)
+		} else {
+			run.Count("kernel_calibration_rejected_by_both", 1)
+		}
+	})
 }
